@@ -22,7 +22,7 @@ for pid in sorted(checks["properties"]):
         "evidence_file": "/verif/evidence/%s.json" % pid,
         "replay_cmd_template": "./check --replay {path}",
         "engine": m["engine"],
-        "level_claimed": {"category": "proof", "text": m["level_text"], "design_ref": m.get("design_ref", "DESIGN.md section 4")},
+        "level_claimed": {"category": m.get("category", "proof"), "text": m["level_text"], "design_ref": m.get("design_ref", "DESIGN.md section 4")},
         "level_note": m["level_note"],
         "technique": m["technique"],
     })
